@@ -214,6 +214,9 @@ func C09_upgrade_pairs() {
 		if cbStatus == 500 {
 			return vRejectErr{}
 		}
+		if cbStatus == 0 { // a rejection that names no status
+			return RejectConnectionError(RejectionReason("nope"), RejectionHeader(HandshakeHeaderString("X-Why: because\r\n")))
+		}
 		return RejectConnectionError(RejectionStatus(cbStatus), RejectionReason("nope"), RejectionHeader(HandshakeHeaderString("X-Why: because\r\n")))
 	}
 	cb := 0
@@ -221,7 +224,7 @@ func C09_upgrade_pairs() {
 		cb = vChoose("callback", 5)
 	}
 	if cb > 0 {
-		cbStatus = []int{403, 500}[vChoose("cbstatus", 2)]
+		cbStatus = []int{403, 500, 0}[vChoose("cbstatus", 3)]
 	}
 	var sawURI, sawHost []byte
 	u.OnRequest = func(uri []byte) error {
@@ -323,7 +326,11 @@ func C09_upgrade_pairs() {
 	}
 	vAssert(r.status != 101, "pairs.no_101_on_failure")
 	if objected && compliant {
-		vAssert(r.status == cbStatus, "pairs.callback_status")
+		if cbStatus == 0 {
+			vAssert(vAnd(r.status >= 400, r.status <= 599), "pairs.rejection_without_status_is_an_http_error")
+		} else {
+			vAssert(r.status == cbStatus, "pairs.callback_status")
+		}
 		if cbStatus != 500 {
 			why, _ := r.get("X-Why")
 			vAssert(why == "because", "pairs.callback_header_present")
